@@ -284,6 +284,7 @@ public:
     // scheduling point, and a thread that finds it held yields cooperatively instead of blocking in the kernel, so
     // any other point (e.g. right after a notify inside a critical section) can safely be a scheduling point too
     bool mutexMode = true;
+    bool clockCostActive = false;
     long lockOps = 0;
     void mutexYield() {
         std::unique_lock<std::mutex> L(m);
@@ -406,6 +407,7 @@ public:
         std::unique_lock<std::mutex> L(m);
         res.out.push_back({l, now, step});
         if (l.rfind("bestmove", 0) == 0) bestmoves++;
+        if (l.rfind("info depth", 0) == 0 || l.rfind("bestmove", 0) == 0) clockCostActive = false;
         if (l.rfind("info ", 0) == 0) infoLines++;
     }
     // returns false at EOF
@@ -422,7 +424,7 @@ public:
         stepAtLastCmd = step; vtimeAtLastCmd = now; idleJumps = 0;
         res.in.push_back({c.text, now, step, forced});
         if (c.text == "<EOF>") { nextCmd = spec.script.size(); return false; }
-        if (c.text.rfind("go", 0) == 0) { nodesAtGo = 0; nodes0 = 0; lastNodes0 = 0; infoLines = 0; }
+        if (c.text.rfind("go", 0) == 0) { nodesAtGo = 0; nodes0 = 0; lastNodes0 = 0; infoLines = 0; clockCostActive = true; }
         line = c.text;
         return true;
     }
@@ -434,7 +436,9 @@ static long long clockHook() {
     Sched* s = gSched;
     std::unique_lock<std::mutex> L(s->m);
     Sched::T* me = Sched::self;
-    if (s->spec.clockReadCostNs > 0 && me && s->cur == me->id) {
+    // the cost applies from `go` until the search prints its first "info depth" line, i.e. to whatever runs before the
+    // iterations start (the on-demand tablebase generator polls the clock there); the iterations themselves count nodes
+    if (s->spec.clockReadCostNs > 0 && s->clockCostActive && me && s->cur == me->id) {
         s->now += s->spec.clockReadCostNs;
         s->res.clockReads++;
         s->reschedule(L, me, true);
